@@ -65,8 +65,29 @@ Definition rfields_seteq (a b : list rfield) : bool :=
   Nat.eqb (List.length a) (List.length b) &&
   forallb (fun x => existsb (rfield_eqb x) b) a && forallb (fun x => existsb (rfield_eqb x) a) b.
 
+(* what a property's check compares ("projected observables only") *)
+Inductive cmp_mode :=
+| CFull      (* outcome with all fields, result accessors, full ordered trace *)
+| CFids      (* outcome class and error identity, ordered trace of (function, error) *)
+| CClass     (* outcome class only (ok / which kind of error) *)
+| CPanic.    (* only whether the call panics *)
+
+Definition proj_event (m : cmp_mode) (e : event) : event :=
+  match m, e with
+  | CFull, _ => e
+  | CFids, EExec f _ _ err => EExec f [] [] err
+  | CFids, EGen g k => EGen g k
+  | _, _ => EGen 0 KRoot
+  end.
+Definition proj_events (m : cmp_mode) (l : list event) : list event :=
+  match m with
+  | CFull | CFids => map (proj_event m) l
+  | _ => []
+  end.
+
 (* the error class the model predicts, as the harness would observe it *)
-Definition err_matches (e : rerr) (o : obs_err) : bool :=
+Definition err_matches (m : cmp_mode) (e : rerr) (o : obs_err) : bool :=
+  match m with CPanic => true | _ =>
   match e, o with
   | XBuild, ObsBuild => true
   | XGen x, ObsErrId y => x =? y
@@ -75,12 +96,14 @@ Definition err_matches (e : rerr) (o : obs_err) : bool :=
   | XFilterOut, ObsFilterOut => true
   | XDupInput, ObsDupInput => true
   | XUnsat args ins convs full, ObsUnsat args' ins' convs' full' _ =>
+      match m with CClass | CFids => true | _ =>
       (* reported argument keys: typed arguments are reported as typed values *)
       seteqb args args' && Nat.eqb (List.length args) (List.length args') &&
       (if full then seteqb ins ins' && Nat.eqb (List.length ins) (List.length ins') && Base.eqb convs convs'
        else match ins', convs' with [], [] => true | _, _ => false end)
+      end
   | _, _ => false
-  end.
+  end end.
 
 (* raw results of the target as Result.Len / Result.Out see them *)
 Definition raw_outs (f : fdecl) (r : result) : Z * list (list Z) :=
@@ -92,20 +115,28 @@ Definition raw_outs (f : fdecl) (r : result) : Z * list (list Z) :=
          end
   end.
 
-Definition outcome_matches (f : fdecl) (o : outcome) (e : obs_err) (len : Z) (outs : list (list Z)) : bool :=
+Definition outcome_matches (m : cmp_mode) (f : fdecl) (o : outcome) (e : obs_err) (len : Z) (outs : list (list Z)) : bool :=
+  match m with CPanic => true | _ =>
   match o with
   | OOk r => (match r_err r with
               | Some x => match e with ObsErrId y => x =? y | _ => false end
               | None => match e with ObsOk => true | _ => false end
               end) &&
-             (let (l, os) := raw_outs f r in (l =? len) && Base.eqb os outs)
-  | OErr x => err_matches x e && (len =? 0) && match outs with [] => true | _ => false end
-  end.
+             (match m with CFull => let (l, os) := raw_outs f r in (l =? len) && Base.eqb os outs | _ => true end)
+  | OErr x => err_matches m x e && (len =? 0) && match outs with [] => true | _ => false end
+  end end.
 
 Definition not_internal (e : event) : bool :=
   match e with EExec f _ _ _ => negb (f <? 0) | _ => true end.
 
 (* codes: 0 ok; 1 outcome; 2 trace; 3 panic mismatch; 4 tape; 5 fuel; 6 structure *)
+Definition res_code_m {A} (m : cmp_mode) (r : res A) (k : A -> Z) (panic_expected : bool) : Z :=
+  match r with
+  | Ok a => if panic_expected then 3 else k a
+  | Panic _ => if panic_expected then 0 else 3
+  | TapeErr _ => match m with CClass | CPanic => 0 | _ => 4 end   (* coarse modes: not comparable, the monitors decide *)
+  | OutOfFuel => 5
+  end.
 Definition res_code {A} (r : res A) (k : A -> Z) (panic_expected : bool) : Z :=
   match r with
   | Ok a => if panic_expected then 3 else k a
@@ -130,53 +161,53 @@ Definition given_opts (given : list (rfield * value)) : list arg :=
                  end) given.
 
 (* check one operation; returns (code, world after) *)
-Definition check_op (u : universe) (bh : behaviour) (prev : list (op * op_obs)) (w : world)
+Definition check_op (m : cmp_mode) (u : universe) (bh : behaviour) (prev : list (op * op_obs)) (w : world)
            (o : op) (ob : op_obs) : Z * world :=
   match o with
   | OpCall f defaults opts =>
       match oo_obs ob with
       | ObsCall e len outs =>
           let r := call u bh f defaults opts w (oo_tape ob) in
-          (res_code r (fun rn => if negb (outcome_matches f (run_out rn) e len outs) then 1
-                                 else if negb (events_eqb (run_trace rn) (oo_events ob)) then 2 else 0) false,
+          (res_code_m m r (fun rn => if negb (outcome_matches m f (run_out rn) e len outs) then 1
+                                 else if negb (events_eqb (proj_events m (run_trace rn)) (proj_events m (oo_events ob))) then 2 else 0) false,
            match r with Ok rn => run_world rn | _ => w end)
-      | ObsPanic _ => (res_code (call u bh f defaults opts w (oo_tape ob)) (fun _ => 0) true, w)
+      | ObsPanic _ => (res_code_m m (call u bh f defaults opts w (oo_tape ob)) (fun _ => 0) true, w)
       | _ => (6, w)
       end
   | OpConvert t opts =>
       match oo_obs ob with
       | ObsConvert e v =>
           let r := convert u bh t opts w (oo_tape ob) in
-          (res_code r (fun vr =>
+          (res_code_m m r (fun vr =>
              let '(mv, rn) := vr in
              let ok := match mv, v with
                        | Some x, Some y => (v_id x =? y) && match e with ObsOk => true | _ => false end
                        | None, None =>
                            match run_out rn with
-                           | OErr x => err_matches x e
+                           | OErr x => err_matches m x e
                            | OOk r => match r_err r with Some x => match e with ObsErrId y => x =? y | _ => false end | None => false end
                            end
                        | _, _ => false
                        end in
              if negb ok then 1
-             else if negb (events_eqb (filter not_internal (run_trace rn)) (oo_events ob)) then 2 else 0) false,
+             else if negb (events_eqb (proj_events m (filter not_internal (run_trace rn))) (proj_events m (oo_events ob))) then 2 else 0) false,
            match r with Ok (_, rn) => run_world rn | _ => w end)
-      | ObsPanic _ => (res_code (convert u bh t opts w (oo_tape ob)) (fun _ => 0) true, w)
+      | ObsPanic _ => (res_code_m m (convert u bh t opts w (oo_tape ob)) (fun _ => 0) true, w)
       | _ => (6, w)
       end
   | OpRedefine f defaults opts =>
       match oo_obs ob with
       | ObsRedefine e ins =>
           let r := redefine u f defaults opts w (oo_tape ob) in
-          (res_code r (fun rr =>
+          (res_code_m m r (fun rr =>
              let '(x, rn) := rr in
              let ok := match x with
                        | inl fs => match e with ObsOk => rfields_seteq fs ins | _ => false end
-                       | inr er => err_matches er e
+                       | inr er => err_matches m er e
                        end in
              if negb ok then 1
-             else if negb (events_eqb (run_trace rn) (oo_events ob)) then 2 else 0) false, w)
-      | ObsPanic _ => (res_code (redefine u f defaults opts w (oo_tape ob)) (fun _ => 0) true, w)
+             else if negb (events_eqb (proj_events m (run_trace rn)) (proj_events m (oo_events ob))) then 2 else 0) false, w)
+      | ObsPanic _ => (res_code_m m (redefine u f defaults opts w (oo_tape ob)) (fun _ => 0) true, w)
       | _ => (6, w)
       end
   | OpCallRedef ref =>
@@ -203,21 +234,21 @@ Definition check_op (u : universe) (bh : behaviour) (prev : list (op * op_obs)) 
                                                      else ANamed (f_name fld) (Some (dyn v)))
                                                     (combine (fn_in (redef_fn ft ins)) recv) in
                       let r := call u bh f defaults inner_opts w (run_tape rn1) in
-                      (res_code r (fun rn =>
+                      (res_code_m m r (fun rn =>
                          let ok := match run_out rn with
                                    | OOk rs => match r_err rs with
                                                | Some x => match e with ObsErrId y => x =? y | _ => false end
-                                               | None => outcome_matches f (run_out rn) e len outs
+                                               | None => outcome_matches m f (run_out rn) e len outs
                                                end
-                                   | OErr x => err_matches x e
+                                   | OErr x => err_matches m x e
                                    end in
                          if negb ok then 1
-                         else if negb (events_eqb (run_trace rn) (oo_events ob)) then 2 else 0) false,
+                         else if negb (events_eqb (proj_events m (run_trace rn)) (proj_events m (oo_events ob))) then 2 else 0) false,
                        match r with Ok rn => run_world rn | _ => w end)
-                  | OErr x => ((if err_matches x e && events_eqb [] (oo_events ob) then 0 else 1), w)
+                  | OErr x => ((if err_matches m x e && events_eqb [] (proj_events m (oo_events ob)) then 0 else 1), w)
                   end
               | Panic _ => (3, w)
-              | TapeErr _ => (4, w)
+              | TapeErr _ => (match m with CClass | CPanic => 0 | _ => 4 end, w)
               | OutOfFuel => (5, w)
               end
           | _ => (6, w)
@@ -227,18 +258,18 @@ Definition check_op (u : universe) (bh : behaviour) (prev : list (op * op_obs)) 
       end
   end.
 
-Fixpoint check_ops (u : universe) (bh : behaviour) (all : list (op * op_obs)) (w : world)
+Fixpoint check_ops (m : cmp_mode) (u : universe) (bh : behaviour) (all : list (op * op_obs)) (w : world)
          (ops : list (op * op_obs)) (i : Z) : Z :=
   match ops with
   | [] => 0
   | (o, ob) :: rest =>
-      let (c, w') := check_op u bh all w o ob in
-      if c =? 0 then check_ops u bh all w' rest (i + 1) else 100 * (i + 1) + c
+      let (c, w') := check_op m u bh all w o ob in
+      if c =? 0 then check_ops m u bh all w' rest (i + 1) else 100 * (i + 1) + c
   end.
 
-Definition check_scn (s : scn) : Z :=
-  check_ops (sc_u s) (behave_of (sc_beh s)) (sc_ops s) world0 (sc_ops s) 0.
+Definition check_scn (m : cmp_mode) (s : scn) : Z :=
+  check_ops m (sc_u s) (behave_of (sc_beh s)) (sc_ops s) world0 (sc_ops s) 0.
 
 Definition run_checks_r {C} (f : C -> Z) (cases : list (Z * C)) : list (Z * Z) :=
   filter (fun r => negb (snd r =? 0)) (map (fun ic => (fst ic, f (snd ic))) cases).
-Definition check_scn_all := run_checks_r check_scn.
+Definition check_scn_all := run_checks_r (check_scn CFull).
